@@ -1054,7 +1054,21 @@ class TpFamily(Family):
         for c in self.corpus(pid):
             yield c
         rng = Rng(seed * 15485863 + 77)
-        # systematic part: every small configuration, a few schedules each
+        # systematic part 1: delay-bounded enumeration (every schedule of the machine with at most d deviations from a
+        # deterministic round-robin scheduler), computed by the model and replayed turn by turn on the real code
+        d = 1 if tier == "quick" else 3
+        small = [(m, j, o) for m in (1, 2) for j in (0, 1, 2, 3) for o in (0, 1)] + ([(3, 3, 0), (3, 3, 1), (2, 4, 0), (2, 4, 1)] if tier == "thorough" else [])
+        mp = vlib.Proc([vlib.MODEL_EXE])
+        try:
+            for m, j, o in small:
+                reply, _ = mp.ask("tp.enum max=%d jobs=%d ord=%d delays=%d limit=%d" % (m, j, o, d, 40 if tier == "quick" else 1500))
+                scheds = [x for x in reply[len("scheds "):].split(";") if x] if reply.startswith("scheds ") else []
+                stats.bump("tp_delay_bounded_schedules", len(scheds))
+                for k, sc in enumerate(scheds):
+                    yield ("tp:dfs:%d/%d/%d:d%d:%d" % (m, j, o, d, k), ["tp.new max=%d jobs=%d ord=%d" % (m, j, o)] + ["tp.step " + w for w in sc.split(",")])
+        finally:
+            mp.close()
+        # systematic part 2: every small configuration, a few random schedules each
         cfgs = [(m, j, o) for m in (1, 2, 3) for j in (0, 1, 2, 3, 4) for o in (0, 1)]
         reps = budget(tier, 6, 120, mult)
         for m, j, o in cfgs:
